@@ -125,6 +125,17 @@ func (node *Node) processUnconfirmedTx(ctx context.Context, tx handlers.TxData) 
 			return errors.Wrap(err, "fetch outputs")
 		}
 	} else {
+		if txState.State.MerkleProof != nil &&
+			node.blocks.Contains(txState.State.MerkleProof.BlockHeader.BlockHash()) {
+			// Already delivered and confirmed in a block that is still in the chain. Seeing it
+			// again, for example re-announced by a peer, must not deliver it as a new tx again.
+			logger.Info(ctx, "Tx already confirmed : %s", hash)
+			if _, err := node.txs.Remove(ctx, *hash, -1); err != nil {
+				return errors.Wrap(err, "remove from tx repo")
+			}
+			return nil
+		}
+
 		logger.Info(ctx, "Updating tx state : %s", hash)
 	}
 
